@@ -1,0 +1,98 @@
+//go:build verif
+
+// Contracts for package mockstore, read by the verifier in /verif (build tag verif).
+// Comment-only file; see /verif/DESIGN.md section 3 for the syntax.
+
+package mockstore
+
+//@ props C11
+//@ # The Resources map is the model: every operation is specified against it directly.
+//@ # (ghost change-callback log chn/chid/chb/cha and callback.onChangeCB: see store/zz_contracts_verif.go)
+//@
+//@ func (st *Store) callOnChange(id string, before interface{}, after interface{})
+//@   requires st != nil && forall(k, 0, len(st.OnChangeCallbacks), st.OnChangeCallbacks[k] != nil)
+//@   modifies ghost.chn, ghost.chid, ghost.chb, ghost.cha
+//@   callback cb onChangeCB
+//@   ensures each.once: chn == old(chn) + len(st.OnChangeCallbacks)
+//@   ensures args: imp(len(st.OnChangeCallbacks) > 0, same(chid, id) && same(chb, before) && same(cha, after))
+//@   loop 1 invariant -1 <= rangeindex && rangeindex < len(st.OnChangeCallbacks) + 0 && chn == old(chn) + rangeindex + 1
+//@   loop 1 invariant imp(rangeindex >= 0, same(chid, id) && same(chb, before) && same(cha, after))
+//@
+//@ # the override hooks are mock-only escape hatches; the contracts below are for a store without hooks
+//@ func callback.hook(self ref)
+//@   anyargs
+//@   modifies all
+//@ pred hooksOff(st *Store) = st != nil && st.OnExists == nil && st.OnValue == nil && st.OnCreate == nil && st.OnUpdate == nil && st.OnDelete == nil
+//@     && forall(k, 0, len(st.OnChangeCallbacks), st.OnChangeCallbacks[k] != nil)
+//@
+//@ func (rt readTxn) Exists() (res bool)
+//@   callback OnExists hook
+//@   dead src:.OnExists(
+//@   requires hooksOff(rt.st)
+//@   ensures res == (len(rt.id) > 0 && hasKey(rt.st.Resources, rt.id))
+//@ pred present(rt readTxn) = len(rt.id) > 0 && hasKey(rt.st.Resources, rt.id)
+//@ func (rt readTxn) Value() (v interface{}, err error)
+//@   callback OnValue hook
+//@   dead src:.OnValue(
+//@   requires hooksOff(rt.st)
+//@   ensures found: imp(present(rt), isNil(err) && same(v, rt.st.Resources[rt.id]))
+//@   ensures missing: imp(!present(rt), isErr(err, store.ErrNotFound) && isNil(v))
+//@
+//@ func (wt writeTxn) Create(v interface{}) (err error)
+//@   callback OnCreate hook
+//@   dead src:.OnCreate(
+//@   requires hooksOff(wt.st)
+//@   modifies all
+//@   callback NewID newIDCB
+//@   ensures_on_panic newid: len(old(wt.id)) == 0 && old(wt.st.NewID) != nil
+//@   ensures noid: imp(len(old(wt.id)) == 0 && old(wt.st.NewID) == nil, !isNil(err) && chn == old(chn) && unchanged("map:mockstore.Store.Resources", "mockstore.Store.Resources"))
+//@   ensures dup: imp(len(old(wt.id)) > 0 && old(hasKey(wt.st.Resources, wt.id)), isErr(err, store.ErrDuplicate) && chn == old(chn) && unchanged("map:mockstore.Store.Resources", "mockstore.Store.Resources"))
+//@   ensures ok: imp(len(old(wt.id)) > 0 && !old(hasKey(wt.st.Resources, wt.id)), isNil(err) && hasKey(old(wt.st).Resources, old(wt.id)) && same(old(wt.st).Resources[old(wt.id)], v)
+//@       && chn == old(chn) + len(old(wt.st.OnChangeCallbacks)) && imp(len(old(wt.st.OnChangeCallbacks)) > 0, same(chid, old(wt.id)) && isNil(chb) && same(cha, v)))
+//@   ensures others: imp(len(old(wt.id)) > 0, forallint(k, imp(k != keyid(old(wt.id)), mapHasId(old(wt.st).Resources, k) == old(mapHasId(wt.st.Resources, k)))))
+//@ func callback.newIDCB(self ref) (id string)
+//@   ensures true
+//@
+//@ func (wt writeTxn) Update(v interface{}) (err error)
+//@   callback OnUpdate hook
+//@   dead src:.OnUpdate(
+//@   requires hooksOff(wt.st)
+//@   modifies all
+//@   ensures missing.err: imp(!old(present(wt.readTxn)), isErr(err, store.ErrNotFound))
+//@   ensures missing.quiet: imp(!old(present(wt.readTxn)), chn == old(chn))
+//@   ensures missing.frame: imp(!old(present(wt.readTxn)), unchanged("map:mockstore.Store.Resources"))
+//@   ensures ok.err: imp(old(present(wt.readTxn)), isNil(err))
+//@   ensures ok.val: imp(old(present(wt.readTxn)), hasKey(wt.st.Resources, wt.id) && same(wt.st.Resources[wt.id], v))
+//@   ensures ok: imp(old(present(wt.readTxn)), true
+//@       && chn == old(chn) + len(wt.st.OnChangeCallbacks) && imp(len(wt.st.OnChangeCallbacks) > 0, same(chid, wt.id) && same(chb, old(wt.st.Resources[wt.id])) && same(cha, v)))
+//@   ensures others: forallint(k, imp(k != keyid(wt.id), mapHasId(wt.st.Resources, k) == old(mapHasId(wt.st.Resources, k))))
+//@
+//@ func (wt writeTxn) Delete() (err error)
+//@   callback OnDelete hook
+//@   dead src:.OnDelete(
+//@   requires hooksOff(wt.st)
+//@   modifies all
+//@   ensures missing: imp(!old(present(wt.readTxn)), isErr(err, store.ErrNotFound) && chn == old(chn) && unchanged("map:mockstore.Store.Resources"))
+//@   ensures ok: imp(old(present(wt.readTxn)), isNil(err) && !hasKey(wt.st.Resources, wt.id)
+//@       && chn == old(chn) + len(wt.st.OnChangeCallbacks) && imp(len(wt.st.OnChangeCallbacks) > 0, same(chid, wt.id) && same(chb, old(wt.st.Resources[wt.id])) && isNil(cha)))
+//@   ensures others: forallint(k, imp(k != keyid(wt.id), mapHasId(wt.st.Resources, k) == old(mapHasId(wt.st.Resources, k))))
+//@
+//@ # per-id exclusion: a transaction holds its lock from Read/Write until the first Close, released exactly once
+//@ func (st *Store) Read(id string) (txn store.ReadTxn)
+//@   requires st != nil
+//@   modifies alloc, ghost.rlocks, mockstore.readTxn.st, mockstore.readTxn.id, mockstore.readTxn.closed
+//@   ensures rlocks == old(rlocks) + 1 && typeIs(txn, "*mockstore.readTxn") && !ptrOf(txn, "*mockstore.readTxn").closed && ptrOf(txn, "*mockstore.readTxn").st == st && same(ptrOf(txn, "*mockstore.readTxn").id, id)
+//@ func (st *Store) Write(id string) (txn store.WriteTxn)
+//@   requires st != nil
+//@   modifies alloc, ghost.wlocks, mockstore.readTxn.st, mockstore.readTxn.id, mockstore.readTxn.closed
+//@   ensures wlocks == old(wlocks) + 1 && typeIs(txn, "*mockstore.writeTxn")
+//@ func (rt *readTxn) Close() (err error)
+//@   requires rt != nil && rt.st != nil
+//@   modifies mockstore.readTxn.closed, ghost.runlocks, alloc
+//@   ensures first: imp(!old(rt.closed), isNil(err) && rt.closed && runlocks == old(runlocks) + 1)
+//@   ensures again: imp(old(rt.closed), !isNil(err) && rt.closed && runlocks == old(runlocks))
+//@ func (wt *writeTxn) Close() (err error)
+//@   requires wt != nil && wt.st != nil
+//@   modifies mockstore.readTxn.closed, ghost.wunlocks, alloc
+//@   ensures first: imp(!old(wt.closed), isNil(err) && wt.closed && wunlocks == old(wunlocks) + 1)
+//@   ensures again: imp(old(wt.closed), !isNil(err) && wt.closed && wunlocks == old(wunlocks))
